@@ -1,15 +1,19 @@
 import IoraModel.Lemmas.SyncRecv
+import IoraModel.Lemmas.SyncRecvW
+import IoraModel.Lemmas.SyncRecvT8
 import IoraModel.Model.SyncRecvGen
 /-!
 # C03 — Synchronous receive is a lossless ordered stream that drains before EOF
 
 Property theorems only; the model is `Model/SyncRecv.lean` (one step = one `syncMutex` critical section of
-`transport_impl.hpp`, REPAIRED code: fixes F15 and F15b), instantiated from the regenerated lock/notify skeleton
-(`Gen/TsyncSkel.lean` via `Model/TsyncFacts.lean`).  Every theorem quantifies over ALL step sequences
-(`steps : List Step` — every interleaving of the I/O thread's data/close deliveries with the application's receives, wake-ups,
-timeouts, spurious wake-ups, mode switches and flush steps, over any number of sessions) that respect the environment
-contract `Disciplined` (engine: no data / second close after a close — zero-length chunks ARE legal arrivals; application: one
-thread drives a session's blocking calls).
+`transport_impl.hpp`, REPAIRED code: fixes F15, F15b, FC03a; FC03b concerns clock arithmetic, which the model does not contain), with
+`receiveSyncCancellable` as a layer over it (`Model/SyncRecvW.lean`), instantiated from the regenerated lock/notify skeleton
+(`Gen/TsyncSkel.lean` via `Model/TsyncFacts.lean`) and PINNED to it (`skeleton_pinned`).  Every theorem quantifies over ALL step
+sequences (`steps : List Step` — every interleaving of the I/O thread's data/close deliveries with the application's receives,
+wake-ups, timeouts, spurious wake-ups, mode switches and flush steps, over any number of sessions) that respect the environment
+contract `Disciplined` (engine: no data / second close after a close — zero-length chunks ARE legal arrivals; the I/O thread is one
+thread; application: one thread drives a session's blocking calls).  The ghost field `out` the stream theorems speak about is tied to
+the emitted events (`T1_out_is_events`).  Time is not modelled: "in time" is tied by `skeleton_pinned` and monitors, not proved.
 -/
 namespace Iora.C03
 open Iora Iora.SyncRecv
@@ -26,6 +30,19 @@ theorem skeleton_conforms :
   refine ⟨fun mb gc al => ?_, by decide, by decide, by decide, by decide, by decide⟩
   exact ⟨show TsyncFacts.notifyOnData = true by decide, show TsyncFacts.notifyOnOverflow = true by decide,
     show TsyncFacts.notifyOnClose = true by decide⟩
+
+set_option maxRecDepth 20000 in
+/-- The four functions the model mirrors step by step — the `onData` handler, `receiveSync`, `setReadMode` and step 6 of the
+`onClose` handler — have EXACTLY the lock / wait / notify / write / compare / return skeleton the model was written against
+(equality with the literal lists in `Model/TsyncFacts.lean`), `receiveSyncCancellable` is exactly the loop `Model/SyncRecvW.lean`
+mirrors, `receiveSync` waits under the caller's lock until `now() + timeout` and answers `Timeout` exactly for an unsignalled wait,
+the timeouts are saturated before they enter clock arithmetic (FC03b), step 6 of the `onClose` handler erases the `readModes`
+entry exactly once, under no condition, and `setReadMode` returns at once for a closed tombstone, before it touches `readModes` (T8, FC02a). -/
+theorem skeleton_pinned :
+    TsyncFacts.c03SkeletonPinned = true ∧ TsyncFacts.recvWrapperShape = true ∧ TsyncFacts.recvTimingArgs = true ∧
+    TsyncFacts.recvTimeoutsSaturate = true ∧ TsyncFacts.closeForgetsModeUnconditionally = true ∧
+    TsyncFacts.setReadModeSkipsTombstone = true := by
+  exact ⟨by decide, by decide, by decide, by decide, by decide, by decide⟩
 
 /-- **T1 (stream, conservation).** After every disciplined step sequence, for every session: the bytes handed out (receive
 results and callback deliveries, in real-time order), then the bytes a flusher holds, then the buffered bytes, then the chunk
@@ -133,6 +150,282 @@ theorem T7_late_receive (cfg : Cfg) (steps : List Step) (sid len : Nat)
   obtain ⟨hd, ho⟩ := hdr b hb
   exact recv_tombstone cfg _ sid len b hsh hb hd ho hc hp hf
 
+/-! ### the ghost field `out` is what an observer of the events sees -/
+
+/-- **T1 (observable form).** `out` is not a free-floating ghost: in every run (disciplined or not) a session's `out` is exactly
+the bytes of the emitted events — successful `receiveSync` results and data-callback deliveries for that session, in order. -/
+theorem T1_out_is_events (cfg : Cfg) (steps : List Step) (sid : Nat) :
+    ((run cfg init steps).1.sess sid).out = evBytes sid (run cfg init steps).2 := by
+  simpa [init] using run_out_is_events cfg sid steps init
+
+/-- one step: the step's own events are exactly what it appends to `out` (any state, any step) -/
+theorem T1_step_out_is_events (cfg : Cfg) (s : State) (st : Step) (sid : Nat) :
+    ((step cfg s st).1.sess sid).out = (s.sess sid).out ++ evBytes sid (step cfg s st).2 :=
+  step_out_is_events cfg s st sid
+
+/-- **T1 over events.** What the application has been handed (events only) followed by what is still held is what was accepted. -/
+theorem T1_stream_events (cfg : Cfg) (hg : cfg.Good) (steps : List Step) (hd : Disciplined cfg init steps) (sid : Nat) :
+    let s := (run cfg init steps).1
+    let x := s.sess sid
+    evBytes sid (run cfg init steps).2 ++ inflight x ++ bufData x ++ pd (pendO s sid) = x.accepted ∧
+      (x.gap = false → x.accepted = x.arrived) := by
+  have h := run_inv hg steps init Inv_init hd sid
+  refine ⟨?_, h.A⟩
+  rw [← T1_out_is_events]; exact h.E
+
+/-- **T2 (no EOF after a gap).** Outside teardown a receive never answers `PeerClosed` for a session one of whose chunks was
+dropped: the overflow is reported instead (sticky, checked before `closed`), so `PeerClosed` means ALL arrived bytes were handed
+out. (`T2_drain_before_eof` carried `gap = false` as a side condition; this discharges it.) -/
+theorem T2_peerClosed_means_everything (cfg : Cfg) (hg : cfg.Good) (steps : List Step) (st : Step)
+    (hd : Disciplined cfg init (steps ++ [st])) (sid : Nat)
+    (hev : Ev.recvRet sid .peerClosed ∈ (step cfg (run cfg init steps).1 st).2)
+    (hsh : (run cfg init steps).1.shuttingDown = false) :
+    let x' := (step cfg (run cfg init steps).1 st).1.sess sid
+    x'.gap = false ∧ x'.out = x'.arrived := by
+  have hd' := (disciplined_append cfg steps [st] init).mp hd
+  have hi := run_inv hg steps init Inv_init hd'.1
+  have hi2 := run_inv2 hg steps init Inv_init Inv2_init hd'.1
+  have hok : ok (run cfg init steps).1 st = true := hd'.2.1
+  have hgap := peerClosed_no_gap (cfg := cfg) hi2 hsh st sid hev
+  obtain ⟨_, h2⟩ := peerClosed_drained hg hi st hok sid hev
+  refine ⟨hgap, ?_⟩
+  rw [h2]; exact (step_inv hg hi st hok sid).A hgap
+
+/-- **T4 (a receive does not look at the mode).** In every reachable state a `receiveSync` entered on a session with buffered
+bytes (no teardown, no other waiter, no flush) returns them — whatever the read mode, in particular `Disabled`: bytes buffered
+before the switch to Disabled are still drained. -/
+theorem T4_receive_ignores_mode (cfg : Cfg) (hg : cfg.Good) (steps : List Step) (hd : Disciplined cfg init steps) (sid len : Nat)
+    (b : Buf) (hsh : (run cfg init steps).1.shuttingDown = false)
+    (hb : ((run cfg init steps).1.sess sid).buf = some b) (hne : b.data ≠ [])
+    (hp : ((run cfg init steps).1.sess sid).parked = none) (hf : ((run cfg init steps).1.sess sid).flush = none) :
+    (step cfg (run cfg init steps).1 (.recvEnter sid len)).2 = [.recvRet sid (.ok (b.data.take (min len b.data.length)))] := by
+  have hH := (run_inv hg steps init Inv_init hd sid).H b hb
+  have hh : b.hasData = true := by simp [hH, hne]
+  simp [step, recvEnterS, hsh, hb, waiters, hp, flushing, hf, pred, hh, drain, hne, evRecv]
+
+/-- **T4 (Disabled → Async goes through the ordered flush).** `setReadMode(sid, Async)` on a Disabled session does not switch
+the mode in its first critical section: it takes the flush path (the mode becomes Async only in a section that found the buffer
+empty, `T3_flush_order`). (`ht`: the session has not been closed — a closed tombstone has no mode, `T8_close_forgets_mode`, and is
+ignored, `T8_tombstone_gets_no_mode`.) -/
+theorem T4_disabled_to_async_flushes (cfg : Cfg) (hal : cfg.allowSwitch = true) (s : State) (sid : Nat)
+    (hm : effMode (s.sess sid) = .disabled) (ht : tomb (s.sess sid) = false) :
+    (step cfg s (.setMode sid .async)).2 = [] ∧ ((step cfg s (.setMode sid .async)).1.sess sid).flush = some .begin ∧
+      effMode ((step cfg s (.setMode sid .async)).1.sess sid) = .disabled := by
+  have hfp : flushPath (s.sess sid) .async = true := by simp [flushPath, hm]
+  have : setModeS cfg (s.sess sid) .async = ({ s.sess sid with flush := some .begin }, none) := by
+    simp [setModeS, hal, hfp, ht]
+  refine ⟨by simp [step, this, evMode], by simp [step, this], ?_⟩
+  simp only [step, this, upd_same]
+  simpa [effMode] using hm
+
+/-- **T5 (a parked receiver is woken by the overflow).** In every reachable state a parked receive whose buffer has overflowed has
+been notified, and its wake-up answers the buffered bytes if there are any, else `BufferOverflow` — never a time-out. -/
+theorem T5_overflow_wakes_parked (cfg : Cfg) (hg : cfg.Good) (steps : List Step) (hd : Disciplined cfg init steps) (sid : Nat)
+    (p : Parked) (b : Buf) (hp : ((run cfg init steps).1.sess sid).parked = some p)
+    (hb : ((run cfg init steps).1.sess sid).buf = some b) (ho : b.overflow = true) (t : Bool) :
+    p.awake = true ∧
+      (step cfg (run cfg init steps).1 (.recvWake sid t)).2 =
+        [.recvRet sid (if b.data ≠ [] then .ok (b.data.take (min p.len b.data.length)) else .overflow)] := by
+  refine ⟨(run_inv hg steps init Inv_init hd sid).W p b hp hb (by simp [ho]), ?_⟩
+  by_cases hne : b.data = []
+  · simp [step, recvWakeS, hp, hb, pred, ho, drain, evRecv, hne]
+  · simp [step, recvWakeS, hp, hb, pred, ho, drain, evRecv, hne]
+
+/-! ### T8 — nothing is delivered for a session after its close -/
+
+/-- **T8 (the close forgets the mode).** Once the I/O thread has processed the close of a session on which no flush is in progress,
+the session is `Quiet` — and precisely: a closed tombstone, no flush, NO `readModes` entry whatever was buffered (the `onClose`
+handler erases the entry UNCONDITIONALLY: `skeleton_pinned`), nothing pending for the callback. -/
+theorem T8_close_forgets_mode (cfg : Cfg) (steps : List Step) (sid : Nat)
+    (hd : Disciplined cfg init (steps ++ [.ioClose sid]))
+    (hf : ((run cfg init steps).1.sess sid).flush = none) :
+    Quiet (run cfg init (steps ++ [.ioClose sid])).1 sid ∧
+    ((run cfg init (steps ++ [.ioClose sid])).1.sess sid).mode = none ∧
+    tomb ((run cfg init (steps ++ [.ioClose sid])).1.sess sid) = true := by
+  have hd' := (disciplined_append cfg steps [.ioClose sid] init).mp hd
+  have hok : ok (run cfg init steps).1 (.ioClose sid) = true := hd'.2.1
+  have hk : ((run cfg init steps).1.sess sid).dead = false ∧ (run cfg init steps).1.ioPend = none := by simpa [ok] using hok
+  rw [run_append, run_cons, run_nil]
+  simp only [step, hk.2, closeSess]
+  have h := ioCloseS_quiet cfg ((run cfg init steps).1.sess sid) hf
+  have hq : QuietS (ioCloseS cfg ((run cfg init steps).1.sess sid)) := Or.inl h.1
+  exact ⟨⟨by simpa using hq, by simp [pendO]⟩, by simpa using h.2, by simpa using h.1.2.1⟩
+
+/-- **T8 (a closed id gets no mode).** `setReadMode(sid, m)` — any `m` — on a session whose closed tombstone is still in the map is
+vacuous: it answers (`true` when switching is allowed) in its first critical section, delivers nothing and changes NOTHING (FC02a,
+repaired): no mode can be registered again for a dead id while its tail is buffered, so no later switch to Async can flush that tail
+through the data callback. Any state, no hypothesis on the history. -/
+theorem T8_tombstone_gets_no_mode (cfg : Cfg) (s : State) (sid : Nat) (m : Mode) (ht : tomb (s.sess sid) = true) :
+    (step cfg s (.setMode sid m)).2 = [.modeRet sid cfg.allowSwitch] ∧ (step cfg s (.setMode sid m)).1.sess sid = s.sess sid := by
+  have : setModeS cfg (s.sess sid) m = (s.sess sid, some cfg.allowSwitch) := by
+    unfold setModeS; cases cfg.allowSwitch <;> simp [ht]
+  simp [step, this, evMode]
+
+/-- **T8 (nothing is delivered after the close).** Every disciplined schedule: after the close of `sid` has been processed — no flush
+of that session being in progress at that moment — NO later step hands bytes of `sid` to the data callback, WHATEVER mode switches
+follow, those of the dead id to Sync/Disabled and back to Async included (`setReadMode` ignores a closed tombstone; once the tombstone is
+gone — EOF reported or GC — a buffer created again for the id stays empty because nothing arrives for a dead id): the buffered tail stays
+retrievable through `receiveSync` only (T2/T7). The one remaining hypothesis is necessary: see the example below. -/
+theorem T8_nothing_delivered_after_close (cfg : Cfg) (pre post : List Step) (sid : Nat)
+    (hd : Disciplined cfg init ((pre ++ [.ioClose sid]) ++ post))
+    (hf : ((run cfg init pre).1.sess sid).flush = none) :
+    ∀ d, Ev.cbData sid d ∉ (run cfg (run cfg init (pre ++ [.ioClose sid])).1 post).2 := by
+  have hd' := (disciplined_append cfg (pre ++ [.ioClose sid]) post init).mp hd
+  exact quiet_run post _ (T8_close_forgets_mode cfg pre sid hd'.1 hf).1 hd'.2
+
+/-- T8, one step: a quiet session stays quiet and the step — ANY disciplined step — delivers nothing of it -/
+theorem T8_quiet_step (cfg : Cfg) (s : State) (sid : Nat) (hq : Quiet s sid) (st : Step) (hok : ok s st = true) :
+    Quiet (step cfg s st).1 sid ∧ ∀ d, Ev.cbData sid d ∉ (step cfg s st).2 :=
+  quiet_step hq st hok
+
+/-! ### `receiveSyncCancellable` (Model/SyncRecvW.lean) -/
+
+/-- **W0 (a wrapper execution is a core execution).** The core steps of a wrapper execution are its `.base` steps: the core state
+and the core events of the wrapper run are those of the core run over them, and a disciplined wrapper run is a disciplined core
+run. Hence T1–T7 hold of every execution that uses `receiveSyncCancellable`. -/
+theorem W0_wrapper_is_core (cfg : Cfg) (wsteps : List WStep) :
+    (wrun cfg winit wsteps).1.core = (run cfg init (coreSteps wsteps)).1 ∧
+      coreEvs (wrun cfg winit wsteps).2 = (run cfg init (coreSteps wsteps)).2 ∧
+      (DisciplinedW cfg winit wsteps → Disciplined cfg init (coreSteps wsteps)) :=
+  wrun_core cfg wsteps winit
+
+/-- **W1 (consumed bytes are returned).** Whatever a critical section of the wrapper's sub-call answers other than `Timeout` — in
+particular `ok bytes`, the only answer that takes bytes out of the buffer — is returned by the wrapper in the same step, and the
+wrapper call is over. -/
+theorem W1_subcall_result_is_returned (cfg : Cfg) (ws : WState) (st : Step) (sid : Nat) (c : WCall) (r : RecvRes)
+    (hw : ws.w sid = some c)
+    (hact : (∃ len, st = .recvEnter sid len ∧ c.phase = .entering) ∨ (∃ t, st = .recvWake sid t ∧ c.phase = .inCall))
+    (hev : Ev.recvRet sid r ∈ (step cfg ws.core st).2) (hr : r ≠ .timeout) :
+    WEv.wrapRet sid r ∈ (wstep cfg ws (.base st)).2 ∧ (wstep cfg ws (.base st)).1.w sid = none := by
+  rcases hact with ⟨len, rfl, hph⟩ | ⟨t, rfl, hph⟩
+  · simp only [step] at hev
+    obtain ⟨_, hX⟩ := mem_evRecv.mp hev
+    have := afterSub_returns { ws with core := (step cfg ws.core (.recvEnter sid len)).1 } sid c hr
+    simp only [wstep, recvStepOf, hw, hph, step, hX, evRecv, recvOf] at this ⊢
+    simpa using this
+  · simp only [step] at hev
+    obtain ⟨_, hX⟩ := mem_evRecv.mp hev
+    have := afterSub_returns { ws with core := (step cfg ws.core (.recvWake sid t)).1 } sid c hr
+    simp only [wstep, recvStepOf, hw, hph, step, hX, evRecv, recvOf] at this ⊢
+    simpa using this
+
+/-- **W3 (a sub-call's `Timeout` is never the wrapper's answer).** The wrapper answers `Timeout` only at a loop head that found the
+deadline passed; a sub-call that timed out sends it back to the loop head (`W1_timeout_consumes_nothing`: with nothing consumed). -/
+theorem W3_timeout_only_at_deadline (cfg : Cfg) (ws : WState) (st : WStep) (sid : Nat)
+    (hev : WEv.wrapRet sid .timeout ∈ (wstep cfg ws st).2) : st = .wLoop sid true := by
+  cases st with
+  | base st =>
+    exfalso
+    rcases wstep_base_cases cfg ws st with h | ⟨sid', c, X, _, _, _, h⟩
+    · rw [h] at hev; simp at hev
+    · rw [h] at hev
+      rcases List.mem_append.mp hev with h1 | h1
+      · simp at h1
+      · exact (mem_afterSub h1).2.2 rfl
+  | cancel sid' => simp [wstep] at hev
+  | wCall sid' len =>
+    exfalso
+    simp only [wstep] at hev
+    cases hw : ws.w sid' with
+    | some c => simp [hw] at hev
+    | none => cases ht : ws.tok sid' <;> simp [hw, ht] at hev
+  | wLoop sid' e =>
+    simp only [wstep] at hev
+    cases hw : ws.w sid' with
+    | none => simp [hw] at hev
+    | some c =>
+      simp only [hw] at hev
+      split at hev
+      · simp at hev
+      · split at hev
+        · rename_i he
+          simp at hev; subst hev; simp [he]
+        · split at hev <;> simp at hev
+
+/-- **W1 (the wrapper invents nothing).** A wrapper return other than its own `Timeout`/`Cancelled` is the result of a sub-call
+made in the same step. -/
+theorem W1_return_is_subcall_result (cfg : Cfg) (ws : WState) (st : WStep) (sid : Nat) (bs : Bytes)
+    (hev : WEv.wrapRet sid (.ok bs) ∈ (wstep cfg ws st).2) :
+    WEv.base (.recvRet sid (.ok bs)) ∈ (wstep cfg ws st).2 := by
+  cases st with
+  | base st =>
+    rcases wstep_base_cases cfg ws st with h | ⟨sid', c, X, _, _, hX, h⟩
+    · rw [h] at hev; simp at hev
+    · rw [h] at hev ⊢
+      rcases List.mem_append.mp hev with h1 | h1
+      · simp at h1
+      · obtain ⟨rfl, rfl, _⟩ := mem_afterSub h1
+        apply List.mem_append_left
+        rw [hX]; simp [evRecv]
+  | cancel sid' => simp [wstep] at hev
+  | wCall sid' len =>
+    exfalso
+    simp only [wstep] at hev
+    cases hw : ws.w sid' with
+    | some c => simp [hw] at hev
+    | none => cases ht : ws.tok sid' <;> simp [hw, ht] at hev
+  | wLoop sid' e =>
+    exfalso
+    simp only [wstep] at hev
+    cases hw : ws.w sid' with
+    | none => simp [hw] at hev
+    | some c =>
+      simp only [hw] at hev
+      (repeat' split at hev) <;> simp at hev
+
+/-- **W1 (a timed-out sub-call consumes nothing).** A core step that answers `Timeout` for a session leaves the session's buffer
+and its handed-out bytes untouched: looping over `Timeout` results loses and duplicates nothing. -/
+theorem W1_timeout_consumes_nothing (cfg : Cfg) (s : State) (st : Step) (sid : Nat)
+    (hev : Ev.recvRet sid .timeout ∈ (step cfg s st).2) :
+    ((step cfg s st).1.sess sid).buf = (s.sess sid).buf ∧ ((step cfg s st).1.sess sid).out = (s.sess sid).out :=
+  step_timeout_consumes_nothing cfg s st sid hev
+
+/-- **W2.** The wrapper answers `Cancelled` on its own account only if the token was cancelled; if a sub-call answers `Cancelled`
+(single-waiter contract) that is passed through by W1. -/
+theorem W2_cancelled_only_if_cancelled (cfg : Cfg) (ws : WState) (st : WStep) (sid : Nat)
+    (hev : WEv.wrapRet sid .cancelled ∈ (wstep cfg ws st).2) :
+    ws.tok sid = true ∨ WEv.base (.recvRet sid .cancelled) ∈ (wstep cfg ws st).2 := by
+  cases st with
+  | base st =>
+    right
+    rcases wstep_base_cases cfg ws st with h | ⟨sid', c, X, _, _, hX, h⟩
+    · rw [h] at hev; simp at hev
+    · rw [h] at hev ⊢
+      rcases List.mem_append.mp hev with h1 | h1
+      · simp at h1
+      · obtain ⟨rfl, rfl, _⟩ := mem_afterSub h1
+        apply List.mem_append_left
+        rw [hX]; simp [evRecv]
+  | cancel sid' => simp [wstep] at hev
+  | wCall sid' len =>
+    left
+    simp only [wstep] at hev
+    cases hw : ws.w sid' with
+    | some c => simp [hw] at hev
+    | none =>
+      cases ht : ws.tok sid' with
+      | false => simp [hw, ht] at hev
+      | true => simp [hw, ht] at hev; subst hev; exact ht
+  | wLoop sid' e =>
+    left
+    simp only [wstep] at hev
+    cases hw : ws.w sid' with
+    | none => simp [hw] at hev
+    | some c =>
+      simp only [hw] at hev
+      split at hev
+      · simp at hev
+      · split at hev
+        · simp at hev
+        · split at hev
+          · rename_i ht; simp at hev; subst hev; exact ht
+          · simp at hev
+
+/-- entered with a cancelled token the wrapper returns `Cancelled` without touching the core -/
+theorem W2_precancelled (cfg : Cfg) (ws : WState) (sid len : Nat) (hw : ws.w sid = none) (ht : ws.tok sid = true) :
+    wstep cfg ws (.wCall sid len) = (ws, [.wrapRet sid .cancelled]) := by
+  simp [wstep, hw, ht]
+
 /-! ### non-vacuity: concrete disciplined runs exercising the hypotheses -/
 
 def cfg10 : Cfg := { maxBuf := 10, gcThreshold := 1024 }
@@ -165,5 +458,36 @@ example : disciplinedB cfg10 init [.setMode 1 .sync, .ioData 1 [], .recvEnter 1 
 example : disciplinedB cfg10 init [.setMode 1 .sync, .ioData 1 [65, 65, 65, 65], .ioData 1 [], .ioClose 1, .recvEnter 1 8, .recvEnter 1 8] = true ∧
     (run cfg10 init [.setMode 1 .sync, .ioData 1 [65, 65, 65, 65], .ioData 1 [], .ioClose 1, .recvEnter 1 8, .recvEnter 1 8]).2 =
       [.modeRet 1 true, .recvRet 1 (.ok [65, 65, 65, 65]), .recvRet 1 .peerClosed] := by decide
+
+/-- T8: Sync, two bytes buffered, close, then `setReadMode(Async)`: vacuous on the closed id (FC02a), NOTHING goes to the callback, the
+tail is returned by the late receive, then EOF -/
+example : (run cfg10 init [.setMode 1 .sync, .ioData 1 [7, 8], .ioClose 1, .setMode 1 .async, .flushStep 1, .recvEnter 1 9, .recvEnter 1 9]).2 =
+    [.modeRet 1 true, .modeRet 1 true, .recvRet 1 (.ok [7, 8]), .recvRet 1 .peerClosed] := by decide
+/-- T8's hypothesis is necessary: a flush in progress when the close is processed goes on delivering (two threads race; the bytes were
+the application's to flush before the close). It is what the code does and it is not excluded by `Disciplined`. -/
+example : disciplinedB cfg10 init [.setMode 1 .sync, .ioData 1 [7, 8], .setMode 1 .async, .flushStep 1, .ioClose 1, .flushStep 1, .flushStep 1] = true ∧
+    (run cfg10 init [.setMode 1 .sync, .ioData 1 [7, 8], .setMode 1 .async, .flushStep 1, .ioClose 1, .flushStep 1, .flushStep 1]).2 =
+      [.modeRet 1 true, .cbData 1 [7, 8]] := by decide
+/-- FC02a (repaired): an application that puts the DEAD id back into Sync mode and then asks for Async gets two vacuous answers and nothing
+through the callback (no mode is registered: the state is unchanged); the tail is still there for `receiveSync`. (The unrepaired `setReadMode` registered Sync again and the second
+call flushed `[7, 8]` through the data callback after the close callback: corpus/C03/FC02a-*.json.) After EOF has been reported the id
+is an unknown id again: the switches succeed and the flush finds nothing. -/
+example : disciplinedB cfg10 init [.setMode 1 .sync, .ioData 1 [7, 8], .ioClose 1, .setMode 1 .sync, .setMode 1 .async, .flushStep 1, .recvEnter 1 9] = true ∧
+    (run cfg10 init [.setMode 1 .sync, .ioData 1 [7, 8], .ioClose 1, .setMode 1 .sync, .setMode 1 .async, .flushStep 1, .recvEnter 1 9]).2 =
+      [.modeRet 1 true, .modeRet 1 true, .modeRet 1 true, .recvRet 1 (.ok [7, 8])] := by decide
+example : (run cfg10 init [.setMode 1 .sync, .ioData 1 [7, 8], .ioClose 1, .recvEnter 1 9, .recvEnter 1 9, .setMode 1 .sync, .setMode 1 .async,
+      .flushStep 1, .flushStep 1, .flushStep 1]).2 =
+    [.modeRet 1 true, .recvRet 1 (.ok [7, 8]), .recvRet 1 .peerClosed, .modeRet 1 true, .modeRet 1 true] := by decide
+
+/-- the wrapper: a sub-call times out, the next one returns the bytes that arrived meanwhile; a cancel between the loop head and
+the sub-call's lock is seen only by the next loop head -/
+example : (wrun cfg10 winit
+    [.base (.setMode 1 .sync), .wCall 1 4, .wLoop 1 false, .base (.recvEnter 1 4), .base (.recvWake 1 true), .wLoop 1 false,
+     .base (.recvEnter 1 4), .base (.ioData 1 [7, 8]), .base (.recvWake 1 false)]).2 =
+    [.base (.modeRet 1 true), .base (.recvRet 1 .timeout), .base (.recvRet 1 (.ok [7, 8])), .wrapRet 1 (.ok [7, 8])] := by decide
+example : (wrun cfg10 winit
+    [.base (.setMode 1 .sync), .wCall 1 4, .wLoop 1 false, .cancel 1, .base (.recvEnter 1 4), .base (.recvWake 1 true),
+     .wLoop 1 false]).2 =
+    [.base (.modeRet 1 true), .base (.recvRet 1 .timeout), .wrapRet 1 .cancelled] := by decide
 
 end Iora.C03
